@@ -50,13 +50,17 @@ Record ack := mkAck { a_kind : akind; a_id : N; a_codes : list N }.
 Inductive event :=
 | Start (h : nat) (rk : rkind) (id : N)   (* caller h: register the first waiter, write the request *)
 | Recv (a : ack)                          (* reader: one iteration of serve for an acknowledgement *)
-| Resume (h : nat).                       (* caller h (QoS 2, signalled by PUBREC) runs on: register
+| Resume (h : nat)                        (* caller h (QoS 2, signalled by PUBREC) runs on: register
                                              chPubComp[id], write PUBREL *)
+| Cancel (h : nat).                       (* caller h's select takes the ctx.Done() branch (context
+                                             cancelled or deadline exceeded): it returns the
+                                             context's error; its waiter entry STAYS in the map *)
 
 Inductive result :=
 | RSuccess (granted : list sub)   (* nil error; for Subscribe the returned []Subscription *)
 | RInvalidSubAck                  (* ErrInvalidSubAck *)
-| RClosed.                        (* the transport is closed: write error / ErrClosedTransport *)
+| RClosed                         (* the transport is closed: write error / ErrClosedTransport *)
+| RCancelled.                     (* the caller's context error (Canceled / DeadlineExceeded) *)
 
 Inductive out :=
 | Done (h : nat) (r : result)     (* caller h returns r *)
@@ -87,9 +91,14 @@ Definition wm_set (m : wmap) (id : N) (w : waiter) : wmap := (id, w) :: wm_del m
 Record sig := mkSig {
   chPubAck : wmap; chPubRec : wmap; chPubComp : wmap; chSubAck : wmap; chUnsubAck : wmap;
   resum : list (nat * N);   (* QoS 2 callers signalled by PUBREC which have not yet run on *)
+  live : list nat;          (* callers blocked in their select with an empty channel. This is the
+                               callers' side of the state: an entry of a map whose caller is not
+                               live is stale — its caller gave up (ctx) and nobody reads the
+                               channel any more; the entry stays until an acknowledgement with
+                               that identifier takes it out or a registration overwrites it *)
   closed : bool }.
 
-Definition sig_init : sig := mkSig [] [] [] [] [] [] false.
+Definition sig_init : sig := mkSig [] [] [] [] [] [] [] false.
 
 Definition smap (s : sig) (k : akind) : wmap :=
   match k with
@@ -99,18 +108,21 @@ Definition smap (s : sig) (k : akind) : wmap :=
 
 Definition with_map (s : sig) (k : akind) (m : wmap) : sig :=
   match k with
-  | KPubAck => mkSig m (chPubRec s) (chPubComp s) (chSubAck s) (chUnsubAck s) (resum s) (closed s)
-  | KPubRec => mkSig (chPubAck s) m (chPubComp s) (chSubAck s) (chUnsubAck s) (resum s) (closed s)
-  | KPubComp => mkSig (chPubAck s) (chPubRec s) m (chSubAck s) (chUnsubAck s) (resum s) (closed s)
-  | KSubAck => mkSig (chPubAck s) (chPubRec s) (chPubComp s) m (chUnsubAck s) (resum s) (closed s)
-  | KUnsubAck => mkSig (chPubAck s) (chPubRec s) (chPubComp s) (chSubAck s) m (resum s) (closed s)
+  | KPubAck => mkSig m (chPubRec s) (chPubComp s) (chSubAck s) (chUnsubAck s) (resum s) (live s) (closed s)
+  | KPubRec => mkSig (chPubAck s) m (chPubComp s) (chSubAck s) (chUnsubAck s) (resum s) (live s) (closed s)
+  | KPubComp => mkSig (chPubAck s) (chPubRec s) m (chSubAck s) (chUnsubAck s) (resum s) (live s) (closed s)
+  | KSubAck => mkSig (chPubAck s) (chPubRec s) (chPubComp s) m (chUnsubAck s) (resum s) (live s) (closed s)
+  | KUnsubAck => mkSig (chPubAck s) (chPubRec s) (chPubComp s) (chSubAck s) m (resum s) (live s) (closed s)
   end.
 
 Definition with_resum (s : sig) (r : list (nat * N)) : sig :=
-  mkSig (chPubAck s) (chPubRec s) (chPubComp s) (chSubAck s) (chUnsubAck s) r (closed s).
+  mkSig (chPubAck s) (chPubRec s) (chPubComp s) (chSubAck s) (chUnsubAck s) r (live s) (closed s).
+
+Definition with_live (s : sig) (l : list nat) : sig :=
+  mkSig (chPubAck s) (chPubRec s) (chPubComp s) (chSubAck s) (chUnsubAck s) (resum s) l (closed s).
 
 Definition with_closed (s : sig) : sig :=
-  mkSig (chPubAck s) (chPubRec s) (chPubComp s) (chSubAck s) (chUnsubAck s) (resum s) true.
+  mkSig (chPubAck s) (chPubRec s) (chPubComp s) (chSubAck s) (chUnsubAck s) (resum s) (live s) true.
 
 (* sig.chX[id] = ch  under sig.mu *)
 Definition register (s : sig) (k : akind) (id : N) (w : waiter) : sig :=
@@ -129,6 +141,10 @@ Fixpoint rs_get (r : list (nat * N)) (h : nat) : option N :=
 Definition rs_del (r : list (nat * N)) (h : nat) : list (nat * N) :=
   filter (fun p => negb (Nat.eqb (fst p) h)) r.
 
+Definition mem_nat (h : nat) (l : list nat) : bool := existsb (Nat.eqb h) l.
+
+Definition lv_del (l : list nat) (h : nat) : list nat := filter (fun x => negb (Nat.eqb x h)) l.
+
 (* which map the request's first waiter goes to, and what the continuation needs *)
 Definition first_kind (rk : rkind) : akind :=
   match rk with RPub1 => KPubAck | RPub2 => KPubRec | RSub _ => KSubAck | RUnsub => KUnsubAck end.
@@ -146,9 +162,10 @@ Fixpoint grant (subs : list sub) (codes : list N) : list sub :=
 Definition step (s : sig) (e : event) : sig * list out :=
   match e with
   | Start h rk id =>
-      (* register under sig.mu, then c.write(pkt); on a closed transport the write fails *)
+      (* register under sig.mu, then c.write(pkt); on a closed transport the write fails;
+         otherwise the caller blocks in its select *)
       let s1 := register s (first_kind rk) id (mkW h (subs_of rk)) in
-      if closed s then (s1, [Done h RClosed]) else (s1, [])
+      if closed s then (s1, [Done h RClosed]) else (with_live s1 (h :: live s1), [])
   | Recv a =>
       if closed s then (s, [])    (* the reader has ended *)
       else
@@ -156,14 +173,18 @@ Definition step (s : sig) (e : event) : sig * list out :=
         match ow with
         | None => (s1, [])        (* no waiter: the acknowledgement is dropped *)
         | Some w =>
-            match a_kind a with
-            | KPubAck | KPubComp | KUnsubAck => (s1, [Done (w_h w) (RSuccess [])])
-            | KPubRec => (with_resum s1 (resum s1 ++ [(w_h w, a_id a)]), [])
-            | KSubAck =>
-                if Nat.eqb (length (a_codes a)) (length (w_subs w))
-                then (s1, [Done (w_h w) (RSuccess (grant (w_subs w) (a_codes a)))])
-                else (with_closed s1, [Done (w_h w) RInvalidSubAck; Closed])
-            end
+            if negb (mem_nat (w_h w) (live s1)) then
+              (s1, [])            (* stale entry: the value goes into a channel nobody reads *)
+            else
+              let s2 := with_live s1 (lv_del (live s1) (w_h w)) in   (* signalled *)
+              match a_kind a with
+              | KPubAck | KPubComp | KUnsubAck => (s2, [Done (w_h w) (RSuccess [])])
+              | KPubRec => (with_resum s2 (resum s2 ++ [(w_h w, a_id a)]), [])
+              | KSubAck =>
+                  if Nat.eqb (length (a_codes a)) (length (w_subs w))
+                  then (s2, [Done (w_h w) (RSuccess (grant (w_subs w) (a_codes a)))])
+                  else (with_closed s2, [Done (w_h w) RInvalidSubAck; Closed])
+              end
         end
   | Resume h =>
       if closed s then (s, [])
@@ -171,7 +192,21 @@ Definition step (s : sig) (e : event) : sig * list out :=
         match rs_get (resum s) h with
         | None => (s, [])
         | Some id =>
-            (register (with_resum s (rs_del (resum s) h)) KPubComp id (mkW h []), [WPubRel h id])
+            let s1 := register (with_resum s (rs_del (resum s) h)) KPubComp id (mkW h []) in
+            (with_live s1 (h :: live s1), [WPubRel h id])
+        end
+  | Cancel h =>
+      if closed s then (s, [])    (* everybody returns ErrClosedTransport anyway *)
+      else if mem_nat h (live s) then
+        (* blocked in select: return ctx.Err(); nothing is removed from the maps
+           (publish.go:183/191/218, subscribe.go:98, unsubscribe.go:73) *)
+        (with_live s (lv_del (live s) h), [Done h RCancelled])
+      else
+        match rs_get (resum s) h with
+        | Some _ =>
+            (* signalled by PUBREC but not yet running: select may still take ctx.Done() *)
+            (with_resum s (rs_del (resum s) h), [Done h RCancelled])
+        | None => (s, [])         (* not waiting: nothing to give up *)
         end
   end.
 
@@ -194,7 +229,10 @@ Definition wm_has (m : wmap) (id : N) : bool :=
 
 Definition rs_has_id (r : list (nat * N)) (id : N) : bool := existsb (fun p => snd p =? id) r.
 
-(* the identifier is not a key of any waiter map this request is going to use *)
+(* the identifier is not a key of any waiter map this request is going to use — stale entries
+   of requests that gave up included: an identifier stays in use until an acknowledgement has
+   taken its entry out (the library itself never re-issues an identifier within 65,535
+   allocations, C15) *)
 Definition fresh (s : sig) (rk : rkind) (id : N) : bool :=
   match rk with
   | RPub1 => negb (wm_has (chPubAck s) id)
@@ -202,8 +240,6 @@ Definition fresh (s : sig) (rk : rkind) (id : N) : bool :=
   | RSub _ => negb (wm_has (chSubAck s) id)
   | RUnsub => negb (wm_has (chUnsubAck s) id)
   end.
-
-Definition mem_nat (h : nat) (l : list nat) : bool := existsb (Nat.eqb h) l.
 
 (* every Start uses a new caller handle and an identifier which no outstanding request of its
    kind holds (what C15 provides for library-chosen identifiers, and what the caller must provide
@@ -247,6 +283,8 @@ Definition react (h : nat) (p : phase) (e : event) : phase * list out :=
       else (p, [])
   | PResum id, Resume h' =>
       if Nat.eqb h' h then (PWait KPubComp id [], [WPubRel h id]) else (p, [])
+  | PWait _ _ _, Cancel h' | PResum _, Cancel h' =>
+      if Nat.eqb h' h then (PFin, [Done h RCancelled]) else (p, [])
   | _, _ => (p, [])
   end.
 
@@ -328,6 +366,6 @@ Definition sub_eqb (a b : sub) : bool := str_eqb (fst a) (fst b) && (snd a =? sn
 Definition result_eqb (a b : result) : bool :=
   match a, b with
   | RSuccess x, RSuccess y => list_eqb sub_eqb x y
-  | RInvalidSubAck, RInvalidSubAck | RClosed, RClosed => true
+  | RInvalidSubAck, RInvalidSubAck | RClosed, RClosed | RCancelled, RCancelled => true
   | _, _ => false
   end.
